@@ -225,10 +225,52 @@ def validate(ctx, groups):
     return nrej
 
 
+def public_entry_points(ctx, env):
+    """the documented entry points (newton_cg, static_newton_cg, trust_ncg, minimize) are the transcribed minimisers: on strictly convex
+    quadratics and on a quartic they must not end above the start and must reach the minimiser of the quadratic (progress is possible)"""
+    jax, jnp, jft, om = env
+    rng = np.random.default_rng(ctx.seed + 170)
+    for n, cond in ((3, 10.), (6, 100.)):
+        qm, _ = np.linalg.qr(rng.normal(size=(n, n)))
+        A = jnp.asarray((qm * np.logspace(0, np.log10(cond), n)) @ qm.T)
+        b = jnp.asarray(rng.normal(size=n))
+        quad = lambda x, A=A, b=b: 0.5 * jft.vdot(x, jft.Vector({"v": A @ x.tree["v"]})) - jnp.vdot(b, x.tree["v"])
+        quart = lambda x, A=A, b=b: quad(x) + 0.25 * jnp.sum(x.tree["v"] ** 4)
+        x0 = jft.Vector({"v": jnp.asarray(rng.normal(size=n))})
+        entries = {
+            "newton_cg": lambda f: om.newton_cg(f, x0, maxiter=60, xtol=1e-10, name=None),
+            "static_newton_cg": lambda f: om.static_newton_cg(f, x0, maxiter=60, xtol=1e-10, name=None),
+            "trust_ncg": lambda f: om.trust_ncg(f, x0, maxiter=200, gtol=1e-8, name=None),
+            "minimize(newton-cg)": lambda f: om.minimize(f, x0, method="newton-cg", options=dict(maxiter=60, xtol=1e-10, name=None)).x,
+            "minimize(trust-ncg)": lambda f: om.minimize(f, x0, method="trust-ncg", options=dict(maxiter=200, gtol=1e-8, name=None)).x,
+            "minimize(trust-ncg, args)": lambda f: om.minimize(lambda x, s: s * f(x), x0, args=(2.,), method="trust-ncg", options=dict(maxiter=200, gtol=1e-8, name=None)).x,
+            "minimize(args)": lambda f: om.minimize(lambda x, s: s * f(x), x0, args=(2.,), method="NCG", options=dict(maxiter=60, xtol=1e-10, name=None)).x,
+        }
+        for fname, f in (("quadratic", quad), ("quartic", quart)):
+            e0 = float(f(x0))
+            for ename, call in entries.items():
+                ctx.case(("public", n, fname, ename))
+                try:
+                    res = call(f)
+                    e1 = float(f(res))
+                    g1 = float(jnp.linalg.norm(jax.grad(f)(res).tree["v"]))
+                except Exception as e:
+                    ctx.violation(dict(kind="public-raises", entry=ename), "%s on a convex %s (n=%d) raised %s: %s" % (ename, fname, n, type(e).__name__, str(e)[:120]),
+                                  replay=dict(what="public", entry=ename))
+                    continue
+                if not (e1 <= e0 + 1e-12 * max(1., abs(e0))):
+                    ctx.violation(dict(kind="public-uphill", entry=ename), "%s on a convex %s (n=%d): energy %.6g at the result is above the start %.6g" % (ename, fname, n, e1, e0),
+                                  replay=dict(what="public", entry=ename))
+                elif g1 > 1e-4 * float(jnp.linalg.norm(b)):
+                    ctx.violation(dict(kind="public-no-progress", entry=ename), "%s on a strictly convex %s (n=%d, condition %g): gradient norm %.3g at the result - the minimum was not approached although progress is possible" % (
+                        ename, fname, n, cond, g1), replay=dict(what="public", entry=ename))
+
+
 def run(ctx):
     q = ctx.quick
     env = _jax()
     jax, jnp, jft, om = env
+    public_entry_points(ctx, env)
     mx = 3 if q else 4
     for mi, ab in ((0, True), (1, False), (0, False), (1, True)):
         ctx.tlc("NewtonPair", MC % (mx, mi, B(ab)) + "SPECIFICATION Spec\n" + INVS, label="MaxIter=%d MinIter=%d absdelta=%s" % (mx, mi, ab), coverage=(not q and mi == 0 and ab))
@@ -267,6 +309,11 @@ def run(ctx):
 def replay(ctx, doc):
     c = doc["case"]
     env = _jax()
+    if c.get("what") == "public":
+        public_entry_points(ctx, env)
+        ctx.sample(dict(replayed=c))
+        ctx.states = ctx.transitions = 1
+        return
     f = objectives(env[1])[c["objective"]]
     items, tviol = judge(c["objective"], f, np.array(c["x0"]), c["kw"], env)
     groups = {}
